@@ -1,6 +1,7 @@
 """pyvc symbolic executor: forward symbolic execution of real Python ASTs
 against sidecar contracts, producing named verification conditions."""
 import ast
+import os
 import itertools
 
 import z3
@@ -196,16 +197,30 @@ class Exec:
             for f in pc:
                 if is_z3(f):
                     syms |= func_syms(f)
+            # Sums are linked by their psum!/cumsum!/_el! symbols.  A fact about one such symbol (its definition, a sign
+            # fact) is kept when the symbol is relevant, and makes the symbols of its elements known; a fact relating
+            # two of them (a congruence) is kept only when everything else it mentions is known -- a congruence with a
+            # sum built on another path through the body mentions that path's state and is never needed.
+            is_link = lambda x: x.startswith(("psum!", "cumsum!")) or "_el!" in x
+            allowed = set(syms)
+            links_ok = {x for x in allowed if is_link(x)}
             rest, kept, changed = list(gfs), [], True
             while changed:
                 changed = False
                 for f in list(rest):
                     fs = func_syms(f)
-                    link = {x for x in fs if x.startswith(("psum!", "cumsum!")) or "_el!" in x}
-                    if (link & syms) if link else (fs & syms):
+                    link = {x for x in fs if is_link(x)}
+                    if not link:
+                        ok = bool(fs & allowed)
+                    elif len(link) == 1:
+                        ok = bool(link & links_ok)
+                    else:
+                        ok = bool(link & links_ok) and (fs - link) <= allowed
+                    if ok:
                         kept.append(f)
                         rest.remove(f)
-                        syms |= fs
+                        allowed |= fs
+                        links_ok |= link
                         changed = True
             gfs = kept
         hyps = pc + gfs
@@ -1621,6 +1636,8 @@ class Exec:
         if isinstance(v, DictV):
             ks = tuple(v.d)
             return len(ks), (lambda i, ks=ks: _pick(ks, i))
+        if type(v).__name__ == "UniqueOf" and getattr(v, "at", None) is not None:
+            return v.n, v.at
         if isinstance(v, Obj):
             r = self.lib.obj_iter(self, st, v)
             return self.iter_desc(r, st)
